@@ -387,7 +387,8 @@ Return == AtStmt /\ Cur[1] = "ret" /\
           LET rs  == EvalAll(P, m.env, Cur[2])
               bad == {j \in 1..Len(rs) : rs[j].st # "ok"}
               fls == UNION {rs[j].fl : j \in 1..Len(rs)}
-          IN IF bad # {} THEN Fail(rs[CHOOSE j \in bad : \A k \in bad : j <= k])
+          IN IF bad # {} THEN LET fb == CHOOSE j \in bad : \A k \in bad : j <= k      \* left to right: the first failure ends the run
+                              IN Fail(WithFl(rs[fb], UNION {rs[j].fl : j \in 1..fb}))
              ELSE IF P.ret # "object" /\ (Len(rs) # 1 \/ rs[1].k # Kind(P.ret)) THEN Stop(Out("pruned", <<>>, "kind-mismatch"), fls)
              ELSE IF P.ret # "object" /\ ~InRange(P.ret, rs[1].v) THEN Stop(Out("pruned", <<>>, "return-range"), fls)
              ELSE Stop(Out("ok", [j \in 1..Len(rs) |-> [k |-> rs[j].k, v |-> rs[j].v]], ""), fls)
